@@ -1,17 +1,16 @@
 SPECIFICATION Spec
 CONSTANTS
-  Family = "adp"
-  Targets = {"eam_adp"}
-  MaxSp = 2
+  Family = "funcfl"
+  Targets = {"funcfl"}
+  MaxSp = 1
   MaxPots = 0
   NRs = {3}
   NRhos = {2}
-  Faults = FALSE
+  Faults = TRUE
   FlushFixed = TRUE
 INVARIANT TypeOK
 INVARIANT NoStuck
-INVARIANT C03_ElementsOnce
-INVARIANT C03_ReaderSeesModel
-INVARIANT C19_Adp
+INVARIANT C17_AllOrNothing
+INVARIANT C17_WholeOrNothing
 INVARIANT C17_DoneMeansWhole
 INVARIANT C17_NoFaultNoRaise
